@@ -109,8 +109,13 @@ EvtSem(r, p) ==
                  [] r.scheme = "instance" -> r.inum \in 0..31
                  [] r.scheme = "instance_group" -> r.group \in 0..31
         d == IF fixed >= 0 THEN fixed ELSE p
+    \* an event class that carries its own event code, given a data argument all the same: the library may refuse it or
+    \* ignore it -- but if it builds an event, that event is the class's own (either |-> TRUE: both outcomes are fine)
     IN [legal |-> dok /\ fok,
-        frame |-> IF dok /\ fok THEN E!Encode(r.scheme, r.short, r.inum, r.group, EvtType(r.cls), d) ELSE 0]
+        either |-> fixed >= 0 /\ p # NoArg /\ fok,
+        frame |-> IF fok /\ (dok \/ fixed >= 0) THEN E!Encode(r.scheme, r.short, r.inum, r.group, EvtType(r.cls), d) ELSE 0]
+EvtCellOK(s, c) == IF s.either THEN c = -1 \/ (c >= 0 /\ c \div 64 = s.frame /\ (Mode = "c03" \/ c % 64 = 63))
+                   ELSE CtorCellOK(s, c)
 
 Verdict(r) ==
     CASE r.kind = "dec16" ->
@@ -153,7 +158,7 @@ Verdict(r) ==
       [] r.kind = "evctor" ->
            LET cells == Rows[r.row]
                ps == PVals[r.pv]
-               bad == {k \in 1..Len(ps) : ~CtorCellOK(EvtSem(r, ps[k]), cells[k])}
+               bad == {k \in 1..Len(ps) : ~EvtCellOK(EvtSem(r, ps[k]), cells[k])}
            IN IF bad = {} THEN Pass
               ELSE LET k == MinOf(bad) IN Fail(CtorClause(EvtSem(r, ps[k]), cells[k]), ps[k])
       [] r.kind = "flags" ->
